@@ -1,6 +1,6 @@
 """C19 - stopping conditions stop the run when, and only when, they are met.
 
-proof:          coq/C19/Properties.v (16 theorems about the real instance of coq/C19/Model.v: latch,
+proof:          coq/C19/Properties.v (18 theorems about the real instance of coq/C19/Model.v: latch,
                 or/and combination, first-hit stop, crossing time within the step / on the chord, TTP
                 after reset; the physics is an arbitrary function `next`).
 correspondence: the REAL stopping machinery (PrecipitationStoppingCondition.testCondition,
@@ -706,7 +706,7 @@ def gen_script(rng, phases, elements, kind):
     return {'rows': rows, 'dt': dt}
 
 
-def gen_cond(rng, script, phases, elements, badname=False):
+def gen_cond(rng, script, phases, elements, badname=False, dyadic=False):
     q = str(rng.choice(QUANT))
     pool = elements if q == 'Composition' else phases
     sel = None if rng.random() < 0.3 else str(rng.choice(pool))
@@ -719,7 +719,8 @@ def gen_cond(rng, script, phases, elements, badname=False):
     k = int(rng.integers(1, len(xs)))
     if how == 'between':
         a, b = xs[k - 1], xs[k]
-        value = 0.5 * (a + b) if a != b else a
+        u = float(rng.choice([0.25, 0.5, 0.75, 0.125])) if dyadic else float(rng.uniform(0.02, 0.98))
+        value = a + u * (b - a) if a != b else a
     elif how == 'tie':
         value = xs[k]
     elif how == 'never':
@@ -736,7 +737,7 @@ def gen_scripted(rng, idx):
     script = gen_script(rng, phases, elements, kind)
     nc = int(rng.choice([0, 1, 2, 3, 4], p=[0.04, 0.36, 0.3, 0.2, 0.1]))
     bad = rng.random() < 0.04
-    conds = [gen_cond(rng, script, phases, elements, badname=(bad and i == 0)) for i in range(nc)]
+    conds = [gen_cond(rng, script, phases, elements, badname=(bad and i == 0), dyadic=(kind == 'dyadic')) for i in range(nc)]
     mode_bias = rng.random()
     if mode_bias < 0.2:
         for c in conds:
@@ -766,7 +767,7 @@ def gen_seq(rng, idx):
     times = [0.0]
     for k in range(1, n):
         times.append(times[-1] + script['dt'][k - 1])
-    conds = [gen_cond(rng, script, phases, elements, badname=(rng.random() < 0.03)) for _ in range(int(rng.integers(1, 4)))]
+    conds = [gen_cond(rng, script, phases, elements, badname=(rng.random() < 0.03), dyadic=(kind == 'dyadic')) for _ in range(int(rng.integers(1, 4)))]
     return {'kind': 'seq', 'base': 'scripted', 'phases': phases, 'elements': elements, 'script': script, 'times': times, 'conds': conds}
 
 
@@ -781,7 +782,7 @@ def gen_ttp_scripted(rng, idx):
     byT = {repr(T): gen_script(rng, phases, elements, kind) for T in temps}
     # conditions drawn from one temperature's script so that they are met at some temperatures only
     src = byT[repr(temps[int(rng.integers(0, len(temps)))])]
-    conds = [gen_cond(rng, src, phases, elements) for _ in range(int(rng.integers(1, 4)))]
+    conds = [gen_cond(rng, src, phases, elements, dyadic=(kind == 'dyadic')) for _ in range(int(rng.integers(1, 4)))]
     total = min(sum(s['dt'][:len(s['rows']) - 1]) for s in byT.values())
     sc = {'kind': 'ttp', 'base': 'scripted', 'phases': phases, 'elements': elements, 'script': {'byT': byT}, 'conds': conds,
           'Tlow': Tlow, 'Thigh': Thigh, 'Tsteps': Tsteps, 'maxTime': float(total * rng.choice([0.6, 1.0])),
@@ -804,7 +805,7 @@ def stub_conds(rng, ref, phases, nconds):
         k = int(rng.integers(1, max(2, n // 4))) if how == 'early' else int(rng.integers(max(1, n // 2), n))
         inc = xs[k] >= xs[k - 1]
         ineq = 'GT' if inc else 'LT'
-        value = 0.5 * (xs[k] + xs[k - 1])
+        value = xs[k - 1] + float(rng.uniform(0.05, 0.95)) * (xs[k] - xs[k - 1])
         if how == 'never':
             ineq = str(rng.choice(['GT', 'LT']))
             value = max(xs) * 1.5 + 1e-30 if ineq == 'GT' else min(xs) * 0.5 - 1e-30
@@ -846,8 +847,14 @@ def model_terms_run(sc, segs):
         # rows beyond what the implementation recorded are only needed if the model wants to go on -
         # then it runs out of rows (dummy rows at time 0, fuel exhausted), which is reported
         keep = len(seg['res']['rows']) + 2
+        # binary64 rounding is not modelled: the model adds t0 + simTime exactly, the implementation rounds
+        # finalTime = t0 + simTime (GenericModel.setTimeInfo, one binary64 addition).  The simulation time
+        # handed to the model is the exact rational that reproduces the correctly rounded end time
+        # (identical to simTime whenever the addition is exact, e.g. always for t0 = 0).
+        t0 = seg['ref'][seg['n0'] - 1]['t']
+        tf = t0 + seg['simTime']
         terms.append('run_case %s %s %s %s %s' % (names_lit(sc['phases'], sc['elements']), rows_lit(seg['ref'][:keep]), natlit(seg['n0']),
-                                                  qx(seg['simTime']), entries_lit(sc['conds'], seg['init'])))
+                                                  qlit(frac(tf) - frac(t0)), entries_lit(sc['conds'], seg['init'])))
         idx.append(si)
     return terms, idx
 
@@ -924,6 +931,14 @@ def explore_runs(ctx, scenarios, label):
             ctx.hist('quantity', c['q'])
             ctx.hist('inequality', c['ineq'])
             ctx.hist('mode', c['mode'])
+        if 'res' in segs[0] and (label != 'scripted' or nontrivial_run(sc, segs)):
+            r0 = segs[0]['res']
+            ctx.sample({'kind': sc['base'] + ' run', 'phases': sc['phases'], 'conditions': sc['conds'], 'simTime': sc['simTime'], 'then': sc.get('then'),
+                        'reference_steps': len(segs[0]['ref']) - 1,
+                        'monitored_first_condition': [value_of(sc['conds'][0], r_, sc['phases'], sc['elements']) for r_ in segs[0]['ref'][:8]]
+                        if sc['conds'] and sel_ok(sc['conds'][0], sc['phases'], sc['elements']) else None,
+                        'times': [r_['t'] for r_ in segs[0]['ref'][:8]],
+                        'implementation': {'steps_recorded': len(r0['rows']) - 1, 'stopped': r0['stopped'], 'latches': r0['latches'], 'error': r0['err']}}, limit=(6 if label == 'stub' else 4))
         for seg in segs:
             if 'ref_err' in seg:
                 hits.append((sc, 'oracle', 'reference failed', 'run without conditions raised ' + seg['ref_err']))
@@ -1021,6 +1036,9 @@ def explore_ttp(ctx, scenarios, label):
         ctx.count(key_of(sc), nt)
         ctx.cov['traces_validated_against_impl'] += len(rec.get('refs', []))
         ctx.hist('kind', 'ttp:' + sc['base'])
+        if nt:
+            ctx.sample({'kind': 'ttp ' + sc['base'], 'conditions': sc['conds'], 'temperatures': rec.get('temps'), 'maxTime': sc['maxTime'],
+                        'tables': [c_['table'] for c_ in rec['calls']]}, limit=8)
         for (clause, cls, msg) in oracle_ttp(sc, rec):
             hits.append((sc, clause, cls, msg))
     return dis_all, hits
@@ -1190,6 +1208,7 @@ def run(ctx):
         'selections are resolvable (phase / element exists and every recorded row has that column): hypotheses hist_ok / next_ok; an unknown name raises in the implementation and is Raised in the model (compared, not part of the property)',
         'exact end time t = tf of an unstopped run is the solver clock (C05); here only tf <= t_end is proved',
         'reported times are compared with relative tolerance 2^-36 of |t_prev| + |t_cur| (binary64 rounding of the interpolation formula is not modelled); flags, stop step and stop flag are compared exactly (they depend on comparisons of recorded doubles only: no near-tie cases)',
+        'the end time of a continued solve, finalTime = t + simTime, is one binary64 addition in the implementation and exact in the model: the model is handed the exact rational simTime that reproduces the correctly rounded end time',
         'multiprocessing pools in calculateTTP are not exercised (serial map only)']
     ctx.cov['trusted_base'] += ['Coq 8.16.1 kernel and vm_compute', 'hand-written model coq/C19/Model.v + correspondence harness harness/c19.py (scripted PrecipitateBase subclass, stub thermodynamics backend)',
                                 'float -> Q transport (float.as_integer_ratio) and output parser in harness/common.py']
